@@ -238,8 +238,9 @@ impl PeerHandler {
                         break;
                     }
                 },
-                Ok(frame) = self.connection.recv_frame() => {
-                    if self.handle_frame(frame).await? == false {
+                // A framing error (malformed length, oversized frame, reset stream) ends the connection
+                frame = self.connection.recv_frame() => {
+                    if self.handle_frame(frame?).await? == false {
                         break;
                     }
                 }
